@@ -80,12 +80,14 @@ def hdr(rng, sid, comp=None):
 def gen_fru(rng, variant=None):
     """variant: subset of 'p' (part number) 'm' (maintenance procedure) 'c' (ccin) 's' (serial)"""
     if variant is None:
-        variant = rng.choice(['', 'p', 'm', 'pc', 'ps', 'pcs', 'mc', 'ms', 'mcs', 'c', 's', 'cs'])
+        variant = rng.choice(['', 'p', 'm', 'pc', 'ps', 'pcs', 'mc', 'ms', 'mcs', 'c', 's', 'cs', 'pm', 'pmc', 'pmcs'])
     fl = rng.choice([0x10, 0x20, 0x30, 0x40, 0x90, 0xA0, 0xB0, 0xC0, 0xE0, 0x00, 0x50, 0xF0])
     f = dict(flags=fl, pn=None, ccin=None, sn=None)
     if 'p' in variant:
         f['flags'] |= 0x08
         f['pn'] = padded(rng, 8)
+        if 'm' in variant:
+            f['flags'] |= 0x02        # both flags: the ONE 8-byte field is part number and procedure at once
     elif 'm' in variant:
         f['flags'] |= 0x02
         f['pn'] = text(rng.choice(['BMC0001', 'BMC0002', 'BMC0008', 'BMC0009', 'XYZ1234', 'A']), 8)
@@ -214,7 +216,7 @@ def gen_lp(rng, ntargets=None, namelen=None):
 
 # characters that text-handling code tends to treat specially: non-ASCII, and everything str.splitlines()
 # regards as a line boundary besides \n
-WEIRD = '\u00e9\u4e2d\u0085\u2028\u2029\x0b\x0c\x1c\x1d\x1e\r\t\x7f\U0001F600'
+WEIRD = '\u00e9\u4e2d\u0085\u2028\u2029\x0b\x0c\x1c\x1d\x1e\r\t\x7f\U0001F600\ud83d\udc00'      # (the last two: lone surrogates)
 
 
 def weird_text(rng, n, alphabet):
@@ -240,6 +242,22 @@ def gen_json_value(rng, depth=0):
             for _ in range(rng.randrange(0, 4))}
 
 
+def gen_hostile_json_ud(rng):
+    """BMC JSON user data whose strings hold the characters output code trips over (non-ASCII, line separators,
+    lone surrogates ...), at least one of them for certain"""
+    s = hdr(rng, 'UD')
+    ch = rng.choice(WEIRD + '\ud83d\udc00\ud83d')          # lone surrogates are the most hostile of them
+    doc = {'k' + rng.choice(['', ch]): 'v' + ch + rtext(rng, rng.randrange(0, 6), ALNUM),
+           'list': [weird_text(rng, rng.randrange(1, 8), ALNUM + ' ":'), ch * rng.randrange(1, 4)]}
+    try:
+        raw = json.dumps(doc, ensure_ascii=rng.random() < .6).encode('utf-8')
+    except UnicodeEncodeError:
+        raw = json.dumps(doc).encode('utf-8')
+    raw += b'\x00' * ((-len(raw)) % 4)
+    s.update(kind='UD', comp=[0x20, 0x00], sub=1, payload=list(raw))
+    return s
+
+
 def gen_ud(rng, route=None, creator='O', sid='UD'):
     """route: 'json' | 'text' | 'cbor' | 'builtin_other' | 'noparser' | 'hd' (hexdump-only / unknown id)"""
     route = route or rng.choice(['json', 'text', 'cbor', 'builtin_other', 'noparser', 'noparser'])
@@ -253,7 +271,10 @@ def gen_ud(rng, route=None, creator='O', sid='UD'):
             doc = gen_json_value(rng, 1) if rng.random() < .3 else \
                 {rtext(rng, rng.randrange(1, 9), ALNUM + ' :"{\\'): gen_json_value(rng, 1)
                  for _ in range(rng.randrange(1, 5))}
-            raw = json.dumps(doc, ensure_ascii=rng.random() < .6).encode('utf-8')
+            try:
+                raw = json.dumps(doc, ensure_ascii=rng.random() < .6).encode('utf-8')
+            except UnicodeEncodeError:          # a lone surrogate can only travel as an escape
+                raw = json.dumps(doc).encode('utf-8')
             raw += b'\x00' * ((-len(raw)) % 4)
             payload = list(raw)
         elif route == 'text':
